@@ -270,7 +270,7 @@ class Impl:
             cont[key] = cont.get(key, F(0)) + F(a)
         mx = None if c.max_volume == float('inf') else F(c.max_volume)
         return {'t': 'c', 'name': c.name, 'cont': cont, 'order': [getattr(self, 'bykey', {}).get((s.name, s.specific_activity, s.mol_weight, s.density), self.byname.get(s.name, -1)) for s in c.contents],
-                'vol': F(c.volume), 'max': mx}
+                'vol': F(c.volume), 'max': mx, 'instr': getattr(c, 'instructions', '') or ''}
 
     def dump(self, o):
         from pyplate import Container
